@@ -16,6 +16,7 @@
     reload                             -> ok          MempoolSave + MempoolLoad
     ringorder <n> {<bidx>}*            -> ok | bad    adopt the observed order of the reject ring (must be a permutation)
     setorder <n> {<bidx>}*             -> ok | bad    adopt the observed sorted list (must be a parents-first permutation)
+    rbf <npk> {<fee> <weight> <k> {<bidx>}*}*  -> <bidx>* | bad-pkg <i>   GetSortedMempoolRBF's listing for the observed FeePackages
     dump                               -> P … | S … | R … | W … | X … | L … | T … | E …
 -/
 import GocoinV.Model.Mempool
@@ -82,6 +83,21 @@ def parseIns : Nat → List String → Option (List TxIn × List String)
     let (xs, rest) ← parseIns n r
     pure (⟨prev, vout, seq⟩ :: xs, rest)
   | _, _ => none
+
+def parsePkgs : Nat → List String → Option (List Pkg × List String)
+  | 0, r => some ([], r)
+  | n + 1, f :: w :: k :: r => do
+    let fee ← f.toNat?
+    let weight ← w.toNat?
+    let k ← k.toNat?
+    let (txs, rest) ← takeN parseKey k r
+    let (ps, rest) ← parsePkgs n rest
+    pure ({ txs, fee, weight } :: ps, rest)
+  | _, _ => none
+
+def firstBad (s : State) : List Pkg → Nat → Option Nat
+  | [], _ => none
+  | pk :: r, i => if pkgOK K s pk then firstBad s r (i + 1) else some i
 
 def isPerm (a b : List Nat) : Bool := sortNat a == sortNat b
 
@@ -169,6 +185,13 @@ def step (o : OSt) (toks : List String) : OSt × String :=
     | some (ks, []) =>
       if !s.sortDirty && isPerm (s.pool.map (·.1)) ks && parentsFirst s ks then ({ o with s := { s with sorted := ks } }, "ok")
       else (o, "bad")
+    | _ => bad
+  | "rbf" :: n :: rest =>
+    match n.toNat?.bind (fun n => parsePkgs n rest) with
+    | some (pks, []) =>
+      match firstBad s pks 0 with
+      | some i => (o, s!"bad-pkg {i}")
+      | none => (o, " ".intercalate ((sortedRBF K s pks).map hex16))
     | _ => bad
   | ["dump"] => (o, dump s)
   | _ => bad
